@@ -189,6 +189,14 @@ fn main() {
             }
             std::process::exit(mon::c07::coldstart_other(&kind, threads, seed, stack_kib));
         }
+        "hammer" => {
+            // hammer <flavour> <threads> <seed> <millis>
+            let flavour = args.get(2).cloned().unwrap_or_else(|| "all".into());
+            let threads: usize = args.get(3).and_then(|s| s.parse().ok()).unwrap_or(16);
+            let seed: u64 = args.get(4).and_then(|s| s.parse().ok()).unwrap_or(1);
+            let millis: u64 = args.get(5).and_then(|s| s.parse().ok()).unwrap_or(1500);
+            std::process::exit(mon::c07::hammer(&flavour, threads, seed, millis));
+        }
         "hijri-newyears" => {
             std::process::exit(mon::c19::hijri_newyears(&args[2]));
         }
